@@ -122,24 +122,71 @@ def _solve_one(job):
                 continue
             s1 = z3.Solver()
             s1.set("timeout", min(1500, timeout_ms))
+            s1.set("rlimit", 4000000)
             s1.add(*sub)
             if s1.check() == z3.unsat:
                 return idx, "unsat", None, time.time() - t0, "z3(%s)" % label
-        r = s.check()
-        if r == z3.unsat:
+        # second solver early: cvc5 decides in well under a second several quantified
+        # obligations (minimum == recurrence) that z3 only finds late or not at all
+        res5, _t5 = _cvc5(text, 6)
+        if res5 == "unsat":
+            return idx, "unsat", None, time.time() - t0, "cvc5"
+        # the full query runs in a separate z3 process with a *hard* time limit (z3's soft
+        # timeout is not always honoured inside nonlinear arithmetic)
+        r, model, reason = _z3_cli(text, max(2, timeout_ms // 1000))
+        if r == "unsat":
             return idx, "unsat", None, time.time() - t0, "z3"
-        if r == z3.sat:
-            return idx, "sat", _model_dict(s.model()), time.time() - t0, "z3"
-        reason = s.reason_unknown()
+        if r == "sat":
+            return idx, "sat", model, time.time() - t0, "z3"
     except Exception as exc:   # a solver crash is an unknown, never a verdict
         reason = "z3 exception: %r" % (exc,)
-    # second opinion
-    res, t1 = _cvc5(text, max(5, timeout_ms // 1000))
-    if res == "unsat":
-        return idx, "unsat", None, time.time() - t0, "cvc5"
-    if res == "sat":
-        return idx, "sat", {"_note": "model from cvc5 not read back"}, time.time() - t0, "cvc5"
-    return idx, "unknown", {"reason": reason, "cvc5": res}, time.time() - t0, "z3+cvc5"
+    return idx, "unknown", {"reason": reason, "cvc5": res5}, time.time() - t0, "z3+cvc5"
+
+
+Z3_CLI = "/usr/local/bin/z3-new"
+_DEF = None
+
+
+def _z3_cli(text, tlimit_s, seed=None):
+    """-> (status, model dict | None, reason)"""
+    import re
+    os.makedirs(WORK, exist_ok=True)
+    fd, path = tempfile.mkstemp(suffix=".smt2", dir=WORK)
+    try:
+        with os.fdopen(fd, "w") as f:
+            body = text.replace("(check-sat)", "")
+            f.write(body + "\n(check-sat)\n(get-model)\n")
+        args = [Z3_CLI, "-smt2", "-T:%d" % tlimit_s, path]
+        if seed is not None:
+            args.insert(1, "smt.random_seed=%d" % seed)
+        try:
+            p = subprocess.run(args, capture_output=True, text=True, timeout=tlimit_s + 10)
+        except subprocess.TimeoutExpired:
+            return "unknown", None, "hard timeout"
+        out = p.stdout.strip()
+        first = out.splitlines()[0] if out else ""
+        if first == "unsat":
+            return "unsat", None, ""
+        if first == "sat":
+            model = {}
+            for m in re.finditer(r"\(define-fun\s+(\S+)\s+\(\)\s+(Int|Bool|Real)\s+([^\n]+?)\)\s*$", out, re.M):
+                name, sort, val = m.group(1).strip("|"), m.group(2), m.group(3).strip()
+                if sort == "Int":
+                    mm = re.match(r"^\(-\s+(\d+)\)$", val)
+                    model[name] = -int(mm.group(1)) if mm else (int(val) if re.match(r"^-?\d+$", val) else val)
+                elif sort == "Bool":
+                    model[name] = (val == "true")
+                else:
+                    model[name] = val
+                if len(model) > 80:
+                    break
+            return "sat", model, ""
+        return "unknown", None, (first or p.stderr.strip())[:200]
+    finally:
+        try:
+            os.unlink(path)
+        except OSError:
+            pass
 
 
 def _cvc5(text, tlimit_s):
@@ -267,18 +314,17 @@ def _solve_retry(job):
     idx, text, timeout_ms, seed = job
     t0 = time.time()
     try:
-        s = z3.Solver()
-        s.set("timeout", timeout_ms)
-        s.set("random_seed", seed)
-        s.from_string(text)
-        r = s.check()
-        if r == z3.unsat:
+        r, model, reason = _z3_cli(text, max(5, timeout_ms // 1000), seed=seed)
+        if r == "unsat":
             return idx, "unsat", None, time.time() - t0, "z3(retry)"
-        if r == z3.sat:
-            return idx, "sat", _model_dict(s.model()), time.time() - t0, "z3(retry)"
+        if r == "sat":
+            return idx, "sat", model, time.time() - t0, "z3(retry)"
         # relaxation: drop the quantified hypotheses; a model of the rest is a *candidate*
+        s = z3.Solver()
+        s.from_string(text)
         s2 = z3.Solver()
-        s2.set("timeout", 10000)
+        s2.set("timeout", 8000)
+        s2.set("rlimit", 20000000)
         for a in s.assertions():
             if not _has_quantifier(a, None):
                 s2.add(a)
@@ -289,7 +335,7 @@ def _solve_retry(job):
             model["_relaxed"] = "candidate from the quantifier-free relaxation (may be spurious)"
         elif r2 == z3.unsat:
             return idx, "unsat", None, time.time() - t0, "z3(qf-relaxation)"
-        return idx, "unknown", model or {"reason": s.reason_unknown()}, time.time() - t0, "z3(retry)"
+        return idx, "unknown", model or {"reason": reason}, time.time() - t0, "z3(retry)"
     except Exception as exc:
         return idx, "unknown", {"reason": "z3 exception %r" % (exc,)}, time.time() - t0, "z3(retry)"
 
